@@ -147,7 +147,9 @@ Proof.
   unfold MIN_CHUNK_ALIGN, ASSUMED_PAGE_SIZE.
   fold (mkcfg up hs ha).
   repeat first [ cx_step | progress change (0 + 16) with 16 | progress change (0 + 8 - 1) with 7
-               | rewrite E0 | rewrite E16 | rewrite <- Es | rewrite <- Eh | cx_split ].
+               | rewrite E0 | rewrite E16 | rewrite <- Es | rewrite <- Eh
+               | rewrite (Z.max_comm ha 4096) | rewrite (Z.max_comm (ha + hs) hint)   (* either operand order in the source *)
+               | cx_split ].
   all: try (unfold checked_next_pow2 in *; fold (next_pow2Z h) in *).
   all: repeat match goal with H : Some _ = Some _ |- _ => injection H as <- end.
   all: repeat first [ cx_step | rewrite <- Eua | cx_split ].
